@@ -148,6 +148,26 @@ def search_approx(seed, tier):
                                                                                                  T.SecondOrderInitialCondition(u0_2, v0_2), []),
              (xx, yy, t0), u0_2(xx, yy), v0_2(xx, yy)),
         ]
+        # "... for every network": also one that standardises / rescales its input tensor IN PLACE before its dense layers
+        class Standardising(torch.nn.Module):
+            def __init__(self, base, shift):
+                super().__init__()
+                self.base, self.shift = base, shift
+
+            def forward(self, inputs):
+                inputs -= self.shift
+                inputs *= 0.5
+                return self.base(inputs)
+        sh = rng.uniform(0.5, 2.0)
+        cases += [
+            ('approx1d/network-preprocessing-its-input-in-place', T.SingleNetworkApproximator1DSpatialTemporal(
+                Standardising(FCNN(2, 1, hidden_units=hidden), sh), None, T.FirstOrderInitialCondition(u0_1), []), (xx, t0), u0_1(xx), None),
+            ('approx2d/network-preprocessing-its-input-in-place', T.SingleNetworkApproximator2DSpatialTemporal(
+                Standardising(FCNN(3, 1, hidden_units=hidden), sh), None, T.FirstOrderInitialCondition(u0_2), []), (xx, yy, t0), u0_2(xx, yy), None),
+            ('approx2d_second/network-preprocessing-its-input-in-place', T.SingleNetworkApproximator2DSpatialTemporal(
+                Standardising(FCNN(3, 1, hidden_units=hidden), sh), None, T.SecondOrderInitialCondition(u0_2, v0_2), []),
+             (xx, yy, t0), u0_2(xx, yy), v0_2(xx, yy)),
+        ]
         for name, ap, args, want, wantdot in cases:
             n_eval += 1
             try:
@@ -578,6 +598,9 @@ def real_history(s):
     from neurodiffeq import temporal as T
     torch.manual_seed(s['torch_seed'])
     ap, opt, _, _ = make_training(s['solver'], 2, s['nt'])
+    if s.get('diverge'):          # a diverging run (step size far too large): losses become inf / nan, the bookkeeping is the same
+        for grp in opt.param_groups:
+            grp['lr'] = 1e30
     rnd = s['random']
     if s['solver'] == '1d_temporal':
         mk = lambda f: {m: (lambda u, x, t, k=k: (u ** 2).mean() + k) for k, m in enumerate(s['metrics'])}
@@ -617,6 +640,9 @@ def history_scripts(tier, seed):
         out.append(dict(solver=solver, epochs=rng.choice([0, 1, 2, 3, 4]) if i >= 3 else 3, metrics=rng.sample(pool, rng.randint(0, 3)),
                         nx=rng.randint(2, 4), nt=rng.randint(1, 3), bs=rng.randint(1, 9), shuffle=rng.random() < 0.5, random=rng.random() < 0.7,
                         torch_seed=rng.randrange(1 << 30)))
+    for solver in ('1d_temporal', '2d', '2d_temporal'):
+        out.append(dict(solver=solver, epochs=4, metrics=rng.sample(pool, 1), nx=3, nt=2, bs=rng.randint(2, 6), shuffle=True, random=True,
+                        torch_seed=rng.randrange(1 << 30), diverge=True))
     # outside the property quantifier, model-vs-code only: a metric called 'loss' shares the loss series' key
     out.append(dict(solver='1d_temporal', epochs=3, metrics=['loss', 'mse'], nx=3, nt=2, bs=4, shuffle=True, random=True,
                     torch_seed=rng.randrange(1 << 30), outside_quantifier=True))
